@@ -10,12 +10,14 @@ CONSTANTS
   MaxJoins = 2
   MaxReq = 6
   MaxStatus = 2
+  MaxRetry = 1
   MaxPending = 100
   PerPeer = 100
   Weak_NoCommitVerify = FALSE
   Weak_SaveBeforeValidate = FALSE
   Weak_NoRedo = FALSE
   Weak_SeenCommitUnchecked = FALSE
+  Weak_AcceptsFromPreviousPeer = FALSE
   Weak_RedoAlwaysCountsPending = FALSE
   Weak_NilSlotAddressUnchecked = FALSE
   Weak_StaleMaxPeerHeight = FALSE
@@ -23,5 +25,5 @@ CONSTANTS
   Weak_PartSetNotCompared = FALSE
 INIT Init
 NEXT Next
-INVARIANTS OnlyCanonical CommitCovers FullyValidated AppliedIsStored LiarsDropped PendingCounterExact CleanHandover SeenCommitsClean TipWhenHonest PoolShape
+INVARIANTS OnlyCanonical CommitCovers FullyValidated AppliedIsStored LiarsDropped PendingCounterExact AcceptOnlyFromAsked CleanHandover SeenCommitsClean TipWhenHonest PoolShape
 CHECK_DEADLOCK FALSE
